@@ -15,7 +15,7 @@ rc=0
 for id in "$@"; do
   out=$("${DVERIF:-$V/bin/dverif}" check "$id" --repo "$S/repo" --out "$S/ev" -q ${TIER:+--tier $TIER} 2>&1)
   if echo "$out" | grep -q '^VIOLATION'; then
-    echo "FIRED  $id $(basename $D): $(echo "$out" | grep '^VIOLATION' | sed -e 's/replay=[^ ]* //' -e "s#$S/repo/##g" | head -${SHOW:-2} | cut -c1-300)"
+    echo "FIRED  $id $(basename $D): $(echo "$out" | grep '^VIOLATION' | sed -e 's/replay=[^ ]* //' -e "s#$S/repo/##g" | head -${SHOW:-2} | cut -c1-${CUT:-300})"
   else
     echo "SILENT $id $(basename $D) $(echo "$out" | grep -v '^KNOWN' | head -2)"; rc=1
   fi
